@@ -28,7 +28,7 @@ SELFTESTS = {"selftest1": "NothingLost", "selftest2": "OneCallbackPerLine", "sel
 def cont_lines(r, L):
     """Lines of the rendering that end in a backslash-newline continuation: the newline comes from
     the layout's blank (`sp`), never from a separator.  Found by rendering once more with a marker."""
-    if "\\\n" not in L["sp"]:
+    if not ("\\" in L["sp"] and "\n" in L["sp"]):
         return []
     marked = syn.render(r, dict(L, sp=L["sp"].replace("\n", "\x01\n")))
     return [i + 1 for i, l in enumerate(marked.split("\n")) if l.endswith("\x01")]
@@ -166,14 +166,20 @@ def trace_record(i, src, t):
 
 
 # ------------------------------------------------------------------------------------------------ parts
+def is_composed(v):
+    return "+" in v["ch"]
+
+
 def part_seq(ck, h, vecs, layouts):
     jobs = []
-    if ck.tier == "quick":
-        # StmtsSeq and Parse share the statement loop: quick uses every other layout (thorough: all)
-        layouts = layouts[::2]
     for v in vecs:
-        for L in layouts:
-            jobs.append({"src": syn.render(v["r"], L), "langs": syn.LANGS, "valid": v["v"], "t": v["t"], "full": ck.tier == "thorough"})
+        if ck.tier == "quick":
+            # StmtsSeq and Parse share the statement loop: quick uses every other layout
+            ls = layouts[::2]
+        else:
+            ls = layouts[:3] if is_composed(v) else layouts
+        jobs.append({"srcs": [syn.render(v["r"], L) for L in ls], "langs": syn.LANGS, "valid": v["v"], "t": v["t"],
+                     "full": ck.tier == "thorough" and not is_composed(v)})
     if os.environ.get("VERIF_C08_CORRUPT"):
         # development self-test: a corrupted expected tree must be noticed
         for j in jobs[::40]:
@@ -181,79 +187,95 @@ def part_seq(ck, h, vecs, layouts):
                 j["t"] = {"k": "File", "Stmts": j["t"]["Stmts"] + j["t"]["Stmts"][:1]}
     res = vlib.run_harness(h, "seq", jobs, shards=6, timeout=3000)
     seen = {}
-    runs = spec = 0
+    runs = spec = nsrc = 0
     for j, r in zip(jobs, res):
+        nsrc += len(j["srcs"])
         if "panic" in r:
             ck.cov["evaluations"] += 1
-            ck.violation("panic|seq|" + r["panic"][:120], {"vector": {"part": "seq", "job": j}, "impl": r})
+            report(ck, "seq", "panic|seq|" + r["panic"][:120], {"vector": {"part": "seq", "job": j}, "impl": r})
             continue
         runs += r["runs"]; spec += r["spec_checked"]
         for f in (r["fails"] or []):
             key = "%s|%s|%s" % (f["kind"], f["mode"], f["detail"][:160])
-            rec = {"vector": {"part": "seq", "job": {"src": j["src"], "langs": [f["lang"]], "valid": j["valid"], "t": j["t"]}}, "impl": f}
-            if key not in seen or len(j["src"]) < len(seen[key]["vector"]["job"]["src"]):
+            src = j["srcs"][f["item"]]
+            rec = {"vector": {"part": "seq", "job": {"srcs": [src], "langs": [f["lang"]], "valid": j["valid"], "t": j["t"], "full": True}}, "impl": f}
+            if key not in seen or len(src) < len(seen[key]["vector"]["job"]["srcs"][0]):
                 seen[key] = rec
             report(ck, "seq", key, seen[key])
     ck.cov["evaluations"] += runs
-    ck.notes["seq"] = {"sources": len(jobs), "parser_runs": runs, "compared_with_spec_tree": spec}
-    return len(jobs)
+    ck.notes["seq"] = {"sources": nsrc, "parser_runs": runs, "compared_with_spec_tree": spec}
+    return nsrc
 
 
 def part_inter(ck, h, vecs, layouts):
     jobs = []
+    stop_layouts = ("lines", "bsnl")
     for v in vecs:
         if not v["v"]:
             continue
+        items = []
         for L in layouts:
+            if ck.tier == "thorough" and is_composed(v) and L["name"] not in stop_layouts:
+                continue
             src = syn.render(v["r"], L)
-            stops = ck.tier == "thorough" or L["name"] in ("lines", "bsnl")    # a consumer stopping at every callback
-            jobs.append({"src": src, "langs": v["v"], "cont": cont_lines(v["r"], L), "stops": stops, "ch": v["ch"], "layout": L["name"]})
+            # a consumer stopping at every callback: on two layouts (thorough: of the composed programs)
+            stops = L["name"] in stop_layouts and (ck.tier == "quick" or is_composed(v))
+            items.append({"src": src, "cont": cont_lines(v["r"], L), "stops": stops, "layout": L["name"]})
             if L["name"] in ("oneline", "lines") and src.rstrip("\n") != src:
                 # the same program when the input ends without a final newline
-                jobs.append({"src": src.rstrip("\n"), "langs": v["v"], "cont": [], "stops": False, "ch": v["ch"], "layout": L["name"] + "-nonl"})
+                items.append({"src": src.rstrip("\n"), "cont": [], "stops": False, "layout": L["name"] + "-nonl"})
+        jobs.append({"items": items, "langs": v["v"]})
     res = vlib.run_harness(h, "inter", jobs, shards=6, timeout=3000)
-    uniq, members = {}, collections.defaultdict(list)   # canonical trace -> id ; id -> [(job, trace)]
+    uniq, members = {}, {}     # canonical trace -> id ; id -> [count, shortest (item, trace)]
     recs = []
-    ntraces = skipped = unann = 0
+    ntraces = skipped = unann = nsrc = 0
     seen = {}
     for j, r in zip(jobs, res):
+        nsrc += len(j["items"])
         if "panic" in r:
             ck.cov["evaluations"] += 1
-            ck.violation("panic|inter|" + r["panic"][:120], {"vector": {"part": "inter", "job": j}, "impl": r})
+            report(ck, "inter", "panic|inter|" + r["panic"][:120], {"vector": {"part": "inter", "job": j}, "impl": r})
             continue
         for f in (r["fails"] or []):
+            it = j["items"][f["item"]]
             if f["kind"] == "parse-error":
                 skipped += 1     # the parser rejects the rendering in this variant: C11's business
                 continue
-            if f["kind"] == "delivered-count" and not j["src"].endswith("\n"):
+            if f["kind"] == "delivered-count" and not it["src"].endswith("\n"):
                 continue         # the trace of the same run carries this (Dev_LastLineWithoutNewlineDropped or a rejection)
             key = inter_key(f)
-            rec = {"vector": {"part": "inter", "job": dict(j, langs=[f["lang"]])}, "impl": f}
-            if key not in seen or len(j["src"]) < len(seen[key]["vector"]["job"]["src"]):
+            rec = {"vector": {"part": "inter", "job": {"items": [it], "langs": [f["lang"]]}}, "impl": f}
+            if key not in seen or len(it["src"]) < len(seen[key]["vector"]["job"]["items"][0]["src"]):
                 seen[key] = rec
             ck.cov["evaluations"] += 1
             report(ck, "inter", key, seen[key])
         for t in (r["traces"] or []):
+            it = j["items"][t["item"]]
             ntraces += 1
             if t.get("unannotated"):
                 unann += 1
                 ck.notes.setdefault("unannotated_samples", [])
                 if len(ck.notes["unannotated_samples"]) < 3:
-                    ck.notes["unannotated_samples"].append({"src": j["src"], "lang": t["lang"], "why": t["unannotated"]})
+                    ck.notes["unannotated_samples"].append({"src": it["src"], "lang": t["lang"], "why": t["unannotated"]})
                 continue
-            rec = trace_record(0, j["src"], t)
+            rec = trace_record(0, it["src"], t)
             key = json.dumps([rec[k] for k in ("open", "done", "dash", "lastnl", "total", "stop", "ev")])
-            if key not in uniq:
-                uniq[key] = len(recs)
-                recs.append(dict(rec, id=len(recs)))
-            members[uniq[key]].append((j, t))
+            i = uniq.get(key)
+            if i is None:
+                i = uniq[key] = len(recs)
+                recs.append(dict(rec, id=i))
+                members[i] = [0, (it, t)]
+            m = members[i]
+            m[0] += 1
+            if len(it["src"]) < len(m[1][0]["src"]):
+                m[1] = (it, t)
     if os.environ.get("VERIF_C08_CORRUPT"):
         # development self-test: a corrupted recorded trace / annotation must be rejected by TLC
         for rec in recs[::50]:
             cbs = [e for e in rec["ev"] if e[0] == 1]
             if cbs:
                 cbs[-1][2] ^= 1          # flip the Incomplete flag of the last callback
-    ck.notes["interactive"] = {"sources": len(jobs), "traces": ntraces, "distinct_traces_sent_to_tlc": len(recs),
+    ck.notes["interactive"] = {"sources": nsrc, "traces": ntraces, "distinct_traces_sent_to_tlc": len(recs),
                                "variant_rejects_rendering": skipped, "unannotated": unann}
     if ntraces and unann > 0.05 * ntraces:
         raise vlib.Inconclusive("%d of %d interactive traces could not be annotated" % (unann, ntraces))
@@ -266,28 +288,30 @@ def judge_inter(ck, recs, members, verdict):
         v = verdict.get(rec["id"])
         if v is None:
             raise vlib.Inconclusive("trace %d was not judged by TLC" % rec["id"])
-        mem = members[rec["id"]]
-        j, t = min(mem, key=lambda m: len(m[0]["src"]))
-        ck.cov["evaluations"] += len(mem)
-        ck.cov["traces_validated_against_impl"] += len(mem)
+        n, (it, t) = members[rec["id"]]
+        ck.cov["evaluations"] += n
+        ck.cov["traces_validated_against_impl"] += n
         if any(e[0] == 1 and e[2] == 1 for e in rec["ev"]):
-            nontrivial += len(mem)
-        vec = {"part": "inter", "job": {"src": j["src"], "langs": [t["lang"]], "cont": j["cont"], "stops": rec["stop"] > 0,
-                                        "stop": rec["stop"]}}
+            nontrivial += n
+        vec = {"part": "inter", "stop": rec["stop"],
+               "job": {"items": [{"src": it["src"], "cont": it["cont"], "stops": rec["stop"] > 0}], "langs": [t["lang"]]}}
         if v[0] == "REJ":
             key = "interactive|" + v[1]["why"]
-            for _ in mem:
-                report(ck, "interactive", key, {"vector": vec, "impl": {"events": rec["ev"]}, "spec": dict(v[1], annotation={k: rec[k] for k in ("open", "done", "lastnl", "total")}),
-                                                "instances": len(mem)})
+            r = {"vector": vec, "impl": {"events": rec["ev"]}, "spec": dict(v[1], annotation={k: rec[k] for k in ("open", "done", "lastnl", "total")}),
+                 "instances": n}
+            report(ck, "interactive", key, r)
+            ck.viol_count += n - 1
         elif v[0] == "DEV":
             for d in v[1]["devs"]:
                 if d not in KNOWN_DEVS:
                     raise vlib.Inconclusive("unknown deviation name %r" % d)
-                for _ in mem:
-                    ck.violation(d, {"vector": vec, "impl": {"events": rec["ev"]}, "spec": dict(v[1], annotation={k: rec[k] for k in ("open", "done", "dash", "lastnl", "total")}),
-                                     "instances": len(mem)})
+                r = {"vector": vec, "impl": {"events": rec["ev"]}, "spec": dict(v[1], annotation={k: rec[k] for k in ("open", "done", "dash", "lastnl", "total")}),
+                     "instances": n}
+                ck.violation(d, r)
+                if d in ck.known_hit:
+                    ck.known_hit[d] += n - 1
         elif len(rec["open"]) >= 3 and sum(rec["open"]) and len(ck.cov["samples"]) < 3:
-            ck.sample({"src": j["src"], "lang": t["lang"], "open": rec["open"], "done": rec["done"], "events": rec["ev"], "verdict": "accepted by ShInteractiveTrace"})
+            ck.sample({"src": it["src"], "lang": t["lang"], "open": rec["open"], "done": rec["done"], "events": rec["ev"], "verdict": "accepted by ShInteractiveTrace"})
     ck.notes["interactive"]["verdicts"] = dict(collections.Counter(v[0] for v in verdict.values()))
     return nontrivial
 
@@ -394,7 +418,7 @@ def replay(ck, rec):
         if "panic" in r:
             ck.violation(key, {"vector": v, "impl": r})
     elif v["part"] == "inter":
-        j = dict(v["job"]); j["stops"] = bool(j.get("stops"))
+        j = v["job"]
         r = vlib.run_harness(h, "inter", [j])[0]
         if "panic" in r:
             ck.violation(key, {"vector": v, "impl": r}); return
@@ -403,8 +427,8 @@ def replay(ck, rec):
                 ck.violation(key, {"vector": v, "impl": f}); return
         recs = []
         for t in (r.get("traces") or []):
-            if not t.get("unannotated") and t.get("stop", 0) == j.get("stop", 0):
-                recs.append(trace_record(len(recs), j["src"], t))
+            if not t.get("unannotated") and t.get("stop", 0) == v.get("stop", 0):
+                recs.append(trace_record(len(recs), j["items"][0]["src"], t))
         for i, vd in validate_traces(ck, recs, 1).items():
             if vd[0] == "REJ" and "interactive|" + vd[1]["why"] == key:
                 ck.violation(key, {"vector": v, "spec": vd[1]})
